@@ -213,9 +213,12 @@ theorem walk_spec (strict : Bool) (t : Trie Bucket) (excl : Option Bits) (p : Bi
   induction i with
   | zero =>
     intro acc ha hacc
+    have hw0 : RT.walk strict t excl p k 0 acc = RT.union acc (RT.level t excl (p.take 0)) := by
+      simp [RT.walk, Gen.closestWalkFromRoot]
+    rw [hw0]
     refine ⟨0, union_nodup ha (hnd 0), ?_, Or.inl rfl⟩
     intro x
-    simp only [RT.walk, mem_union]
+    simp only [mem_union]
     constructor
     · rintro (h | h)
       · exact hacc x h
@@ -264,12 +267,12 @@ theorem eq_of_perm_of_strict {α : Type} (key : α → Nat) : ∀ {l₁ l₂ : L
 
 theorem closer_trans (t : Bits) : ∀ (a b c : Node), RT.closer t a b = true → RT.closer t b c = true → RT.closer t a c = true := by
   intro a b c h1 h2
-  simp [RT.closer] at *
+  simp [RT.closer, Gen.closestSortDistanceFirst] at *
   omega
 
 theorem closer_total (t : Bits) : ∀ (a b : Node), (RT.closer t a b || RT.closer t b a) = true := by
   intro a b
-  simp [RT.closer]
+  simp [RT.closer, Gen.closestSortDistanceFirst]
   omega
 
 /-- sorting a duplicate-free list with injective keys gives a strictly increasing list -/
@@ -283,7 +286,7 @@ theorem sort_strict (t : Bits) (l : List Node) (hnd : l.Nodup)
   intro a b ha hb hab
   have ha' : a ∈ l := List.mem_mergeSort.mp ha
   have hb' : b ∈ l := List.mem_mergeSort.mp hb
-  have hle : dist a.id t ≤ dist b.id t := by simpa [RT.closer] using hab.1
+  have hle : dist a.id t ≤ dist b.id t := by simpa [RT.closer, Gen.closestSortDistanceFirst] using hab.1
   have hne : dist a.id t ≠ dist b.id t := fun he => hab.2 (hinj a ha' b hb' he)
   omega
 
